@@ -220,12 +220,17 @@ def registry_inputs(name, m, sv, limit=600, funcs=('validate',)):
         if len(paths) > limit:
             # every top-level entry with its first nested path is kept, the rest is sampled with a fixed stride
             top = []
-            for length, low, high, props, children in db.prefixes[:400]:
-                top.append(low)
-                if children:
+            nested = 0
+            for i_, (length, low, high, props, children) in enumerate(db.prefixes):
+                if children and nested < 150:
+                    nested += 1
+                    top.append(low)
                     top.append(low + children[0][1])
+                    top.append(low + children[-1][2])
                     if children[0][4]:
                         top.append(low + children[0][1] + children[0][4][0][1])
+                elif i_ < 100:
+                    top.append(low)
             step = len(paths) / float(limit)
             paths = list(dict.fromkeys(top + [paths[int(i * step)] for i in range(limit)]))
         for p in paths:
